@@ -243,6 +243,36 @@ func refsLinkGuard(r *core.Run) {
 func hasVisitedGuard(info *types.Info, body ast.Node) (string, bool) {
 	tested := map[string]bool{}
 	stored := map[string]bool{}
+	// `_, ok := m[k]` immediately followed by `if ok { … return }`
+	ast.Inspect(body, func(n ast.Node) bool {
+		var list []ast.Stmt
+		switch b := n.(type) {
+		case *ast.BlockStmt:
+			list = b.List
+		case *ast.CaseClause:
+			list = b.Body
+		}
+		for i := 0; i+1 < len(list); i++ {
+			as, ok := list[i].(*ast.AssignStmt)
+			if !ok || len(as.Lhs) != 2 || len(as.Rhs) != 1 {
+				continue
+			}
+			ix, ok := core.Unparen(as.Rhs[0]).(*ast.IndexExpr)
+			if !ok {
+				continue
+			}
+			if _, isMap := info.TypeOf(ix.X).Underlying().(*types.Map); !isMap {
+				continue
+			}
+			ifs, ok := list[i+1].(*ast.IfStmt)
+			if ok && core.ExprStr(ifs.Cond) == core.ExprStr(as.Lhs[1]) && len(ifs.Body.List) > 0 {
+				if _, isRet := ifs.Body.List[len(ifs.Body.List)-1].(*ast.ReturnStmt); isRet {
+					tested[core.ExprStr(ix.X)] = true
+				}
+			}
+		}
+		return true
+	})
 	ast.Inspect(body, func(n ast.Node) bool {
 		switch x := n.(type) {
 		case *ast.IfStmt:
